@@ -674,7 +674,7 @@ def run(rep):
     rng_sys = random.Random('%s-c17sys' % rep.seed)
     dis_pi = c17sys.stage_w_pcinfo(rep, rng_sys, 120 if thorough else 30)
     found_sys = c17sys.stage_system(rep, rng_sys, thorough)
-    if dis_pi and not found_sys:
+    if dis_pi and not rep.n_with_input:
         found_sys = c17sys.stage_system(rep, rng_sys, thorough, widen=4)
     for d_, f_ in ((dis, found), (dis_pc, found_pc), (dis_pi, found_sys)):
         if d_ and not f_:
